@@ -1,6 +1,7 @@
 import Mathlib.Data.Int.Bitwise
 import Mathlib.Data.Nat.Bitwise
 import Mathlib.Data.Nat.Find
+import Mathlib.Combinatorics.Colex
 
 /-!
 # The BITS axioms over `ℤ` / `ℕ`
@@ -168,6 +169,25 @@ theorem B6_lowest_bit {x : ℤ} (hx : x ≠ 0) :
 theorem B12_testBit_two_pow_sub_one (i k : ℕ) : ((1 <<< i : ℕ) - 1).testBit k = decide (k < i) := by
   rw [Nat.one_shiftLeft]
   exact Nat.testBit_two_pow_sub_one i k
+
+/-- [B13] left shift -/
+theorem B13_testBit_shiftLeft (x s k : ℕ) : (x <<< s).testBit k = (decide (s ≤ k) && x.testBit (k - s)) := by
+  rw [Nat.testBit_shiftLeft]
+
+/-- [B11c] -/
+theorem B11c_one : (1 <<< 0 : ℕ) = 1 := rfl
+
+/-- [SUM-ATOMS] the sum of pairwise distinct powers of two has exactly those bits
+(`sum(1 << e for e in ex)` in Lattice._fromlist, `sum(map(cls._map.__getitem__, set(members)))` in bitsets.frommembers,
+`sum(compress(cls._atoms, bools))` in bitsets.frombools) -/
+theorem sum_two_pow_testBit (s : Finset ℕ) (k : ℕ) : (∑ i ∈ s, 2 ^ i).testBit k = decide (k ∈ s) := by
+  have h := Finset.toFinset_bitIndices_sum_two_pow s
+  have hm : k ∈ (∑ i ∈ s, 2 ^ i).bitIndices.toFinset ↔ k ∈ s := by rw [h]
+  rw [List.mem_toFinset, Nat.mem_bitIndices] at hm
+  by_cases hk : k ∈ s
+  · simp [hk, hm.mpr hk]
+  · have : ¬ (∑ i ∈ s, 2 ^ i).testBit k = true := fun hb => hk (hm.mp hb)
+    simp [hk, this]
 
 #print axioms B1_testBit_land
 #print axioms B4_testBit_shiftRight
